@@ -116,8 +116,8 @@ PlainCases == PlainFam \cup MacroFam
 (* entries (gt_1), the OPLS tag (decides which entry is looked up; may be absent) - each before the block, in its first      *)
 (* branch, in its #else branch or after it; the block's own tag defined nowhere, first or last in a branch (#ifndef TAG /    *)
 (* #define TAG first = the include-guard idiom; last = the condition would flip if it were evaluated late), or after the     *)
-(* block.  CondAll is every combination (TLC checks the intended reader against cpp on all of them); the ones of the stated    *)
-(* domain (no #define in a branch that is not selected) are exported and replayed on the code.                                *)
+(* block.  CondAll is every combination, #define lines in branches that are not selected included; all of them are in the     *)
+(* stated domain (F37 repaired), checked by TLC, exported and replayed on the code.                                           *)
 CTag == "C09_GUARD"
 DefB == Def("gb_1", <<"0.1", "1000">>)
 DefT == Def("gt_1", <<"0.15">>)
@@ -159,8 +159,9 @@ Miss_no == {FALSE}
 
 \* diagnostic only: the result the repaired defects F19 / F20 used to produce, printed when it differs, so that a report can
 \* name the returning defect; it never excuses a difference
-Sigs == << [sig |-> "pairs-not-typed", d |-> [pairs |-> TRUE, tbl |-> FALSE]],
-           [sig |-> "define-in-type-table", d |-> [pairs |-> FALSE, tbl |-> TRUE]] >>
+Sigs == << [sig |-> "pairs-not-typed", d |-> [pairs |-> TRUE, tbl |-> FALSE, kept |-> FALSE]],
+           [sig |-> "define-in-type-table", d |-> [pairs |-> FALSE, tbl |-> TRUE, kept |-> FALSE]],
+           [sig |-> "define-in-unselected-branch", d |-> [pairs |-> FALSE, tbl |-> FALSE, kept |-> TRUE]] >>
 Alts(t) == LET e == Expected(t, NoDev) IN
              SelectSeq([i \in 1..Len(Sigs) |-> [sig |-> Sigs[i].sig, res |-> Expected(t, Sigs[i].d)]], LAMBDA a : a.res # e)
 \* rendering hint: the lines end with the #endif of a selected branch (the renderer may then close the block at the end of the file)
